@@ -210,6 +210,15 @@ def h_escape_surrogates(X):
 KERNEL = "props/chx/c32_kernel.py"
 
 
+class _Chx(Chx):
+    """same obligation; the CrossHair child (main and reachability twin) gets at least 150 s per condition.  CrossHair
+    returns as soon as the path tree is exhausted / the twin's counterexample is found (2-15 s of CPU), the slack only
+    matters on an overloaded machine where the default 30 s twin budget (210 s wall incl. interpreter start) was hit."""
+
+    def _child(self, fn, timeout, seed):
+        return super()._child(fn, max(timeout, 150), seed)
+
+
 def obligations(tier):
     thorough = tier == "thorough"
     to = 150 if tier == "quick" else 300  # CrossHair stops as soon as the path tree is exhausted (5-15 s unloaded); the slack is for a loaded machine
@@ -221,14 +230,14 @@ def obligations(tier):
              encoded=ENCODED, must_reach=["set", "end", "surrogate", "charset-kept", "charset-updated", "bom-consumed"], parallel_depth=3),
         Symx("second-assignment", h_second_assignment,
              bounds="6 content types x 7 charsets x prefixes x declared charsets x 4 code point classes: get_text() output assigned again",
-             encoded=ENCODED[:2], must_reach=["fixpoint"], parallel_depth=2),
-        Chx("codepoint-utf8", KERNEL, "check_utf8", twin="twin_utf8", timeout=to, bounds=cp + ", Content-Type text/plain; charset=utf-8 (U+FEFF first: signature reading)", encoded=ENCODED),
-        Chx("codepoint-latin1", KERNEL, "check_latin1", twin="twin_latin1", timeout=to, bounds="every code point U+0000..U+00FF (symbolic), Content-Type text/plain; charset=latin-1, header unchanged", encoded=ENCODED),
-        Chx("codepoint-no-content-type", KERNEL, "check_no_content_type", twin="twin_no_content_type", timeout=to, bounds="every code point U+0000..U+00FF (symbolic), no Content-Type header (latin-1 fallback)", encoded=ENCODED),
-        Chx("codepoint-json", KERNEL, "check_json_one", twin="twin_json_one", timeout=to, bounds=cp + ", Content-Type application/json (utf-8 by definition)", encoded=ENCODED),
-        Chx("codepoint-html", KERNEL, "check_html", twin="twin_html", timeout=to, bounds=cp + ", Content-Type text/html without charset (meta sniffing regex runs on the symbolic body)", encoded=ENCODED),
+             encoded=ENCODED[:2], must_reach=["fixpoint"]),
+        _Chx("codepoint-utf8", KERNEL, "check_utf8", twin="twin_utf8", timeout=to, bounds=cp + ", Content-Type text/plain; charset=utf-8 (U+FEFF first: signature reading)", encoded=ENCODED),
+        _Chx("codepoint-latin1", KERNEL, "check_latin1", twin="twin_latin1", timeout=to, bounds="every code point U+0000..U+00FF (symbolic), Content-Type text/plain; charset=latin-1, header unchanged", encoded=ENCODED),
+        _Chx("codepoint-no-content-type", KERNEL, "check_no_content_type", twin="twin_no_content_type", timeout=to, bounds="every code point U+0000..U+00FF (symbolic), no Content-Type header (latin-1 fallback)", encoded=ENCODED),
+        _Chx("codepoint-json", KERNEL, "check_json_one", twin="twin_json_one", timeout=to, bounds=cp + ", Content-Type application/json (utf-8 by definition)", encoded=ENCODED),
+        _Chx("codepoint-html", KERNEL, "check_html", twin="twin_html", timeout=to, bounds=cp + ", Content-Type text/html without charset (meta sniffing regex runs on the symbolic body)", encoded=ENCODED),
         Symx("escape-surrogates", h_escape_surrogates,
              bounds="every escape surrogate U+DC80..U+DCFF (all 128 undecodable bytes, solver-enumerated) x 5 header configurations x 4 positions; native execution",
-             encoded=ENCODED[:2], must_reach=["end", "strict-raises"], parallel_depth=1),
+             encoded=ENCODED[:2], must_reach=["end", "strict-raises"]),
     ]
     return obs
